@@ -404,6 +404,55 @@ pub fn c13news() -> bool {
 }
 
 
+/// C13 (query c13_news_semantic): `Store::has_news_for_us` on a real store against the specification, for every pattern of
+/// three authors being absent / present with one of three timestamps on OUR side (64 stores) and in THEIR report (64 reports).
+pub fn c13newsus() -> bool {
+    use iroh_docs::{AuthorHeads, Record, SignedEntry};
+    let mut bad = false;
+    let now = std::time::SystemTime::now().duration_since(std::time::UNIX_EPOCH).unwrap().as_micros() as u64;
+    let base = now - 10_000_000;
+    let mut authors: Vec<Author> = (0..3u8).map(|i| Author::from_bytes(&[70 + i; 32])).collect();
+    authors.sort_by_key(|a| *a.id().as_bytes());
+    let (h, l) = hash(b"x");
+    for ca in 0..64u32 {
+        let ns = NamespaceSecret::from_bytes(&[(ca % 200) as u8 + 1; 32]);
+        let mut store = Store::memory();
+        let mut replica = store.new_replica(ns.clone()).unwrap();
+        let mut ours: Vec<Option<u64>> = vec![];
+        for (i, au) in authors.iter().enumerate() {
+            let t = (ca / 4u32.pow(i as u32)) % 4;
+            ours.push(if t > 0 { Some(base + t as u64) } else { None });
+            if t > 0 {
+                let e = SignedEntry::from_parts(&ns, au, b"k", Record::new(h, l, base + t as u64));
+                block_on(replica.insert_remote_entry(e, [1u8; 32], iroh_docs::ContentStatus::Missing)).unwrap();
+            }
+        }
+        drop(replica);
+        store.close_replica(ns.id());
+        for cb in 0..64u32 {
+            let mut theirs = AuthorHeads::default();
+            let mut want = 0u64;
+            for (i, au) in authors.iter().enumerate() {
+                let t = (cb / 4u32.pow(i as u32)) % 4;
+                if t > 0 {
+                    theirs.insert(au.id(), base + t as u64);
+                    if ours[i].map(|o| base + t as u64 > o).unwrap_or(true) {
+                        want += 1;
+                    }
+                }
+            }
+            let got = store.has_news_for_us(ns.id(), &theirs).unwrap().map(|n| n.get()).unwrap_or(0);
+            if got != want {
+                if !bad {
+                    eprintln!("c13newsus: our heads {:?}, their report {:?}: has_news_for_us says {got}, expected {want}", ours.iter().map(|o| o.map(|t| t - base)).collect::<Vec<_>>(), theirs);
+                }
+                bad = true;
+            }
+        }
+    }
+    bad
+}
+
 /// C05: every combination of query kind, author filter, key filter, sort, direction, include-empty,
 /// offset and limit on a two-author state with prefix-related keys, deletion markers, an entry pruned
 /// by a prefix deletion (stale by-key index row) and equal timestamps is compared with the query's
@@ -840,6 +889,7 @@ pub fn run(id: &str) -> Option<bool> {
         "c17" => c17(),
         "c13enc" => c13enc(),
         "c13news" => c13news(),
+        "c13newsus" => c13newsus(),
         "c05" => c05(),
         other => return iroh_docs::verif_incrate::witness::run(other),
     })
